@@ -4,10 +4,12 @@
    the generic 0x0d1d encoding of the method "key").  The behaviour WITHOUT the
    repair is kept as did_decode_pinned with the refuting witness.
 
-   Base58btc (go-multibase / mr-tron/base58) is an abstract codec: Section
-   variables with the round-trip law as hypothesis (checked dynamically by the
-   harness on every value it touches). *)
-From Ucanto Require Import Base Varint VarintMore Sig.
+   Base58btc (go-multibase / mr-tron/base58) is a Section variable with its
+   laws as hypotheses, so that the proofs use nothing else about it; the laws
+   are THEOREMS of the concrete codec BaseEnc.b58enc / BaseDec.b58dec (the
+   instance at the end of this file; Properties_C14.v states everything for
+   the concrete functions). *)
+From Ucanto Require Import Base Varint VarintMore Sig BaseEnc BaseDec.
 From Coq Require Import ZifyBool ZifyN ZifyNat.
 Open Scope N_scope.
 
@@ -153,10 +155,26 @@ Section Dec.
       change (skipn 4 (pfx_did ++ r)) with r. exact E2.
   Qed.
 
+  (* the bytes of a key DID that Parse returns are bytes (they come out of the decoder) *)
+  Lemma did_parse_key_bytes s d : did_parse s = Some d -> dkey d = true -> bytes_ok (dstr d).
+  Proof.
+    unfold did_parse, did_parse_with. intros H K.
+    destruct (prefixb pfx_did s); cbn [negb] in H; [|discriminate].
+    destruct (prefixb pfx_did_key s).
+    - destruct (skipn 8 s) as [|c rest]; [discriminate|].
+      destruct (c =? mb_z); [|discriminate].
+      destruct (b58dec rest) as [b|] eqn:Eb; [|discriminate].
+      pose proof (b58dec_bytes _ _ Eb) as Hb.
+      apply did_decode_some in H; [|exact Hb]. destruct H as [_ ->]. exact Hb.
+    - assert (D : d = mkdid false (core_tag ++ skipn 4 s)) by congruence.
+      rewrite D in K. discriminate.
+  Qed.
+
 End Dec.
 
 Section Codec.
-  (* base58btc encode / decode of go-multibase *)
+  (* base58btc encode / decode of go-multibase.  The decoder rejects the empty
+     string, so the round trip holds for non-empty byte strings. *)
   Variable b58enc : bstr -> bstr.
   Variable b58dec : bstr -> option bstr.
 
@@ -186,24 +204,26 @@ Section Codec.
   (* round trips                                                        *)
 
   Hypothesis b58dec_bytes : forall s b, b58dec s = Some b -> bytes_ok b.
-  Hypothesis b58_roundtrip : forall b, b58dec (b58enc b) = Some b.
+  Hypothesis b58_roundtrip : forall b, bytes_ok b -> b <> [] -> b58dec (b58enc b) = Some b.
 
   Notation did_parse := (did_parse b58dec).
   Notation did_parse_pinned := (did_parse_pinned b58dec).
 
   Theorem did_string_roundtrip d :
-    did_wf d = true -> did_parse (did_to_string_v d) = Some d.
+    did_wf d = true -> (dkey d = true -> bytes_ok (dstr d)) ->
+    did_parse (did_to_string_v d) = Some d.
   Proof using b58_roundtrip.
     destruct d as [k s]. unfold did_wf, did_to_string_v, did_parse, did_parse_with. cbn [dkey dstr].
     destruct k.
-    - intros Hwf.
+    - intros Hwf Hb. specialize (Hb eq_refl).
+      assert (Hne : s <> []) by (intros ->; vm_compute in Hwf; discriminate).
       change (prefixb pfx_did (pfx_did_key ++ mb_z :: b58enc s)) with true.
       change (prefixb pfx_did_key (pfx_did_key ++ mb_z :: b58enc s)) with true.
       change (skipn 8 (pfx_did_key ++ mb_z :: b58enc s)) with (mb_z :: b58enc s).
-      cbn [negb]. rewrite N.eqb_refl, b58_roundtrip.
+      cbn [negb]. rewrite N.eqb_refl, b58_roundtrip by assumption.
       unfold did_decode. destruct (from_uvarint s) as [e|[c n]]; [discriminate|].
       rewrite Hwf. reflexivity.
-    - rewrite andb_true_iff, negb_true_iff. intros [Hp Hn].
+    - rewrite andb_true_iff, negb_true_iff. intros [Hp Hn] _.
       apply prefixb_spec in Hp. destruct Hp as [r ->].
       rewrite core_tag_len.
       change (skipn method_offset (core_tag ++ r)) with r.
@@ -222,8 +242,9 @@ Section Codec.
     did_decode (did_bytes d) = Some d /\
     exists s', did_to_string d = Ret s' /\ did_parse s' = Some d.
   Proof using b58dec_bytes b58_roundtrip.
-    intros H. apply (did_parse_some b58dec b58dec_bytes) in H. split; [apply did_bytes_roundtrip; exact H|].
-    exists (did_to_string_v d). split; [apply did_to_string_total|apply did_string_roundtrip; exact H].
+    intros H. pose proof (did_parse_key_bytes b58dec b58dec_bytes s d H) as Hb.
+    apply (did_parse_some b58dec b58dec_bytes) in H. split; [apply did_bytes_roundtrip; exact H|].
+    exists (did_to_string_v d). split; [apply did_to_string_total|apply did_string_roundtrip; assumption].
   Qed.
 
   Theorem did_roundtrip_of_decode b d :
@@ -233,14 +254,17 @@ Section Codec.
   Proof using b58_roundtrip.
     intros Hb H. apply did_decode_some in H; [|exact Hb]. destruct H as [H E].
     split; [exact E|]. split; [apply did_bytes_roundtrip; exact H|].
-    exists (did_to_string_v d). split; [apply did_to_string_total|apply did_string_roundtrip; exact H].
+    exists (did_to_string_v d). split; [apply did_to_string_total|apply did_string_roundtrip; [exact H|]].
+    intros _. rewrite E. exact Hb.
   Qed.
 
   (* two well-formed DIDs that print the same are the same DID (no aliasing) *)
   Corollary did_to_string_inj d1 d2 :
-    did_wf d1 = true -> did_wf d2 = true -> did_to_string_v d1 = did_to_string_v d2 -> d1 = d2.
+    did_wf d1 = true -> did_wf d2 = true -> bytes_ok (did_bytes d1) -> bytes_ok (did_bytes d2) ->
+    did_to_string_v d1 = did_to_string_v d2 -> d1 = d2.
   Proof using b58_roundtrip.
-    intros H1 H2 E. apply did_string_roundtrip in H1. apply did_string_roundtrip in H2.
+    intros H1 H2 B1 B2 E. apply did_string_roundtrip in H1; [|intros _; exact B1].
+    apply did_string_roundtrip in H2; [|intros _; exact B2].
     rewrite E in H1. congruence.
   Qed.
 
@@ -296,15 +320,18 @@ Section Codec.
   Qed.
 End Codec.
 
-(* the unrepaired behaviour refutes the round trip: stated for a concrete codec
-   table that agrees with base58btc on the two strings involved *)
-Definition toy_dec (s : bstr) : option bstr :=
-  if beq s (bs "TH6gADdcuEQ") then Some (core_tag ++ bs "key:zQ")
-  else if beq s (bs "Q") then Some [23] else None.
+(* ------------------------------------------------------------------ *)
+(* the concrete codec satisfies the hypotheses of the Sections above *)
 
+Lemma b58dec_bytes_ok : forall s b, BaseDec.b58dec s = Some b -> bytes_ok b.
+Proof. exact BaseDec.b58dec_bytes. Qed.
+Lemma b58_roundtrip_ok : forall b, bytes_ok b -> b <> [] -> BaseDec.b58dec (BaseEnc.b58enc b) = Some b.
+Proof. exact BaseDec.b58_roundtrip. Qed.
+
+(* the unrepaired behaviour refutes the round trip (real base58btc) *)
 Definition did_roundtrip_pinned_full : Prop :=
-  forall s d, did_parse_pinned toy_dec s = Some d ->
-  exists s', did_to_string (fun b => b) d = Ret s' /\ did_parse_pinned toy_dec s' = Some d.
+  forall s d, did_parse_pinned BaseDec.b58dec s = Some d ->
+  exists s', did_to_string BaseEnc.b58enc d = Ret s' /\ did_parse_pinned BaseDec.b58dec s' = Some d.
 
 Theorem did_roundtrip_pinned_refuted : ~ did_roundtrip_pinned_full.
 Proof.
@@ -313,17 +340,10 @@ Proof.
   vm_compute in A. inversion A; subst s'. vm_compute in B. discriminate.
 Qed.
 
-(* non-vacuity: a codec satisfying the hypotheses, and well-formed DIDs of each kind *)
-Example codec_hyps_satisfiable :
-  let enc := (fun b : bstr => b) in
-  let dec := (fun s : bstr => if bytes_okb s then Some s else None) in
-  (forall s b, dec s = Some b -> bytes_ok b) /\ (forall b, bytes_ok b -> dec (enc b) = Some b).
-Proof.
-  cbv zeta. split.
-  - intros s b H. destruct (bytes_okb s) eqn:E; [|discriminate]. inversion H; subst b.
-    apply bytes_okb_ok. exact E.
-  - intros b H. apply bytes_okb_ok in H. rewrite H. reflexivity.
-Qed.
+(* with the repair the alias string is rejected *)
+Example did_alias_fixed_concrete :
+  did_parse BaseDec.b58dec alias_string = None /\ did_decode (did_bytes alias_did) = None.
+Proof. vm_compute. split; reflexivity. Qed.
 
 Example did_wf_examples :
   did_wf (mkdid true (uvarint code_ed ++ repeat 7 32)) = true /\
